@@ -374,6 +374,21 @@ fn exercise(
                     Err((class, _)) if class == "local-copy-unreadable" || class == "object-unreadable" => outcome.push_str(":update=updated-but-damage-remains"),
                     Err((class, msg)) => return Err((format!("update-{class}"), msg)),
                 }
+                // The same with a server that has nothing new: the answer
+                // is Not Modified and only the state record is rewritten,
+                // in place and with the same length.
+                rrdp.install(&Some(bytes.to_vec()));
+                alloc::reset();
+                let (mut server, mut truth) = c25::new_server();
+                for phase in fixture_history() { for op in phase { c25::apply_srv(&mut server, &mut truth, op); } }
+                let r = util::catch(|| c25::client_update(rrdp, &server, &truth, c25::Mode::Faithful))
+                    .map_err(|p| ("panic".to_string(), format!("RRDP update (nothing new on the server) over the damaged archive panicked: {p}")))?;
+                check_alloc("the RRDP update with nothing new")?;
+                match r {
+                    Ok(o) => outcome.push_str(&format!(":unchanged={}", o.result)),
+                    Err((class, _)) if class == "local-copy-unreadable" || class == "object-unreadable" => outcome.push_str(":unchanged=damage-remains"),
+                    Err((class, msg)) => return Err((format!("update-{class}"), msg)),
+                }
             }
         }
     }
@@ -485,7 +500,9 @@ pub fn run(ctx: &Ctx) -> Report {
         variant that touches the archive's objects or an occupied index \
         entry) a full offline validation run resp. a real RRDP update over \
         it (three deltas: a publish fitting the hole exactly, a publish \
-        into a shared bucket, a withdrawal from a shared chain); worker processes \
+        into a shared bucket, a withdrawal from a shared chain) and one \
+        against an unchanged server (Not Modified: the state record is \
+        rewritten in place); worker processes \
         with an 8 GiB address-space cap, per-thread largest-allocation \
         tracking and a hang horizon; oracle: no panic, no abort, no hang, \
         no single allocation above 64 MiB + 16 x file size, an update \
